@@ -17,7 +17,8 @@ from .monitors import EventMonitor
 KIND_HEADERS = {
     'req': h2h.REQ, 'post': h2h.REQ_POST, 'head': h2h.REQ_HEAD, 'resp': h2h.RESP,
     'info': h2h.INFO, 'trailers': h2h.TRAILERS, 'bad': h2h.BAD, 'resp204': h2h.RESP204,
-    'reqhost': h2h.REQ_HOSTONLY,
+    'reqhost': h2h.REQ_HOSTONLY, 'noauth': h2h.REQ_NOAUTH, 'hostmismatch': h2h.REQ_HOSTMISMATCH,
+    'emptypath': h2h.REQ_EMPTYPATH,
 }
 
 
